@@ -103,7 +103,7 @@ def rand_value(rng, depth=0):
         return {"t": "EURange", "low": fdesc(lo), "high": fdesc(hi)}
     if r < 0.80:
         return {"t": "EngineeringUnits", "uri": rng.choice(["http://www.opcfoundation.org/UA/units/un/cefact", rand_text(rng, allow_empty=False)]),
-                "unit_id": rng.randint(-2**31, 2**31 - 1),
+                "unit_id": rng.choice([4408652, -1, 5]) if rng.random() < 0.3 else rng.randint(-2**31, 2**31 - 1),   # a few unit ids recur under different names
                 "display": {"text": rand_text(rng), "locale": rng.choice([None, "en", "de"])},
                 "description": {"text": rand_text(rng), "locale": rng.choice([None, "en", "nb"])}}
     if r < 0.85:
